@@ -1,6 +1,7 @@
 package confparse
 
 import (
+	"encoding/pem"
 	"crypto/ed25519"
 
 	"github.com/aperturerobotics/bifrost/crypto"
@@ -112,5 +113,55 @@ func VerifC11Total() {
 	rt.Assert("private: not both key and error", !(k != nil && err != nil))
 	p, err2 := ParsePublicKey(s)
 	rt.Assert("public: not both key and error", !(p != nil && err2 != nil))
+	rt.Reach("end")
+}
+
+// VerifC11PEMTotal: PEM-looking input of every kind — too short to hold a block, holding no block, or
+// holding a well-formed block of arbitrary type (incl. the two key types) with an arbitrary body — makes
+// every PEM parser return a key or an error (never neither for non-blank input in the config parsers,
+// never a panic anywhere).
+func VerifC11PEMTotal() {
+	var txt []byte
+	constructed := false
+	switch rt.Choose("shape", 3) {
+	case 2: // a real PEM document of one of the key types (or another type) around an arbitrary short body
+		typ := []string{keypem.PrivPemType, keypem.PubPemType, "CERTIFICATE"}[rt.Choose("blockType", 3)]
+		txt = pem.EncodeToMemory(&pem.Block{Type: typ, Bytes: rt.Bytes("blockBody", 0, 4)})
+		constructed = true
+	case 0: // starts like a PEM document but is cut short
+		txt = append([]byte("-----BEGIN"), rt.Bytes("tail", 0, 2)...)
+	case 1: // long enough to hold a block: the decoder finds none, or one of arbitrary type and body
+		txt = append([]byte("-----BEGIN"), rt.Bytes("body", 30, 30)...)
+	}
+	s := string(txt)
+	// one parser per path (the PEM stub makes its choices per call); the string-level parsers trim and
+	// sniff the text byte by byte, so they get the short shape only
+	np := 7
+	if len(txt) > 12 || constructed {
+		np = 5
+	}
+	switch rt.Choose("parser", np) {
+	case 0:
+		priv, pub, err := keypem.ParseKeyPem(txt)
+		rt.Assert("ParseKeyPem: not both a key and an error", !((priv != nil || pub != nil) && err != nil))
+	case 1:
+		p2, err := keypem.ParsePubKeyPem(txt)
+		rt.Assert("ParsePubKeyPem: not both a key and an error", !(p2 != nil && err != nil))
+	case 2:
+		k2, err := keypem.ParsePrivKeyPem(txt)
+		rt.Assert("ParsePrivKeyPem: not both a key and an error", !(k2 != nil && err != nil))
+	case 3:
+		k, err := ParsePrivateKeyPEM(txt)
+		rt.Assert("ParsePrivateKeyPEM of non-empty text: a key or an error", (k != nil) != (err != nil))
+	case 4:
+		p, err := ParsePublicKeyPEM(txt)
+		rt.Assert("ParsePublicKeyPEM of non-empty text: a key or an error", (p != nil) != (err != nil))
+	case 5:
+		k, err := ParsePrivateKey(s)
+		rt.Assert("ParsePrivateKey of PEM-looking text: a key or an error", (k != nil) != (err != nil))
+	case 6:
+		p, err := ParsePublicKey(s)
+		rt.Assert("ParsePublicKey of PEM-looking text: a key or an error", (p != nil) != (err != nil))
+	}
 	rt.Reach("end")
 }
